@@ -37,6 +37,12 @@ def direction_trace(case, obs, wsid, rsid):
     res = {(r[0], r[1], r[2]): r[3] for r in obs["res"]}
     tl = []
     order = [0, 1] if cfg["mode"] == "remote" else [0]
+    bg_data = {}
+    for st in case["steps"]:
+        for cmds in st.get("hosts", {}).values():
+            for cmd in cmds:
+                if cmd[0] == "write_bg":
+                    bg_data[cmd[1]] = cmd[2]
     for k, st in enumerate(case["steps"]):
         for a in st["ctl"]:
             if a[0] in ("partition", "partition_oneway"):
@@ -59,6 +65,10 @@ def direction_trace(case, obs, wsid, rsid):
                     tl.append(("rdrop", k))
                 if nm in ("drop", "drop_r") and cmd[1] == wsid and r == "none":
                     tl.append(("peer_rdrop", k))       # the writer's own read half went away
+            # a task awaiting write_all completes at the end of its host's turn
+            for b in obs.get("bg", []):
+                if b[0] == k and b[1] == h and b[2] == wsid and b[2] in bg_data:
+                    tl.append(("w", bg_data[b[2]], b[3], "write_bg", k))
     return tl
 
 
@@ -205,6 +215,7 @@ def c02_oracle(case, obs):
                     out.append(("%s: EOF after %d of %d bytes" % (label, len(st["got"]), len(st["accepted"])), None))
     out.extend(graceful_drop_rule(case, obs))
     out.extend(no_abort_no_reset_rule(case, obs))
+    out.extend(blocked_writer_rule(case, obs))
     return out
 
 
@@ -236,6 +247,29 @@ def no_abort_no_reset_rule(case, obs):
                     return out
                 if nm in ("shutdown", "drop_w") and r in (["ok"], "none"):
                     shut.add(cmd[1])
+    return out
+
+
+def blocked_writer_rule(case, obs):
+    """A writer blocked on credits must not stay blocked once its connection was reset: when the
+    writer's host no longer has the stream entry for three steps, the task awaiting write_all must
+    have completed (with an error)."""
+    out = []
+    cfg = case["cfg"]
+    if cfg["mode"] != "remote":
+        return out
+    _, chost, shost = F.prologue(cfg)
+    res = {(r[0], r[1], r[2]): r[3] for r in obs["res"]}
+    done = {b[2]: b for b in obs.get("bg", [])}
+    for k, st in enumerate(case["steps"]):
+        for h in (0, 1):
+            for i, cmd in enumerate(st.get("hosts", {}).get(str(h), [])):
+                if cmd[0] == "write_bg" and res.get((k, h, i)) == "none" and cmd[1] not in done:
+                    gone = [j for j in range(k + 1, len(obs["post"])) if obs["post"][j][1][h][1] == 0]
+                    if len(gone) >= 3:
+                        out.append(("the task awaiting write_all on stream %d (host %d, since step %d) never completes "
+                                    "although the connection was reset: the host has had no stream entry since step %d"
+                                    % (cmd[1], h, k, gone[0]), None))
     return out
 
 
@@ -343,7 +377,7 @@ class Spec(PropSpec):
             if r == 4:
                 cases.append(F.gen_reqresp(ctx.rng) if (i // 6) % 2 else F.gen_halfclose(ctx.rng))
             elif r == 5:
-                cases.append(F.gen_parked(ctx.rng))
+                cases.append(F.gen_parked(ctx.rng) if (i // 6) % 3 else F.gen_blocked_writer(ctx.rng))
             else:
                 cases.append(F.gen_random(ctx.rng) if r % 2 else F.gen_complete(ctx.rng))
         return cases
